@@ -189,17 +189,17 @@ function runOne(src, probes, timeout) {
       try { const pd = Object.getOwnPropertyDescriptor(sb, n); v = pd && 'value' in pd ? state.ser(pd.value) : '<accessor>'; } catch (e) { v = '<err>'; }
       gl.push(n + '=' + v);
     }
-    if (probes) {
-      for (const n of probes) {
-        if (!/^[A-Za-z_$][A-Za-z0-9_$]*$/.test(n)) continue;
-        if (Object.prototype.hasOwnProperty.call(sb, n)) continue;
-        let v;
-        try {
-          const r = vm.runInContext('typeof ' + n + '==="undefined"?"<undeclared>":[' + n + ']', ctx, { timeout: 200 });
-          v = typeof r === 'string' ? r : state.ser(r[0]);
-        } catch (e) { v = '<probe-throws>'; state.ser(e); }
-        if (v !== '<undeclared>') gl.push('~' + n + '=' + v);
-      }
+    if (probes && probes.length) {
+      const names = probes.filter(n => /^[A-Za-z_$][A-Za-z0-9_$]*$/.test(n) && !Object.prototype.hasOwnProperty.call(sb, n));
+      // one evaluation for all names; a top-level let/const/class binding is visible to later scripts
+      const code = '[' + names.map(n => '(()=>{try{return typeof ' + n + '==="undefined"?"<undeclared>":[' + n + ']}catch(e){return "<throws>"}})()').join(',') + ']';
+      try {
+        const r = vm.runInContext(code, ctx, { timeout: 3000 });
+        for (let i = 0; i < names.length; i++) {
+          const v = typeof r[i] === 'string' ? r[i] : state.ser(r[i][0]);
+          if (v !== '<undeclared>') gl.push('~' + names[i] + '=' + v);
+        }
+      } catch (e) { status = 'probe-failure'; }
     }
   }
   if (state.tdz) status = status === 'ok' ? 'tdz' : status;
